@@ -246,8 +246,11 @@ impl<'a> StagesBuilder<'a> {
                 for system in group {
                     let system: &SystemId = system;
 
-                    let mut name = (*map.get(system).unwrap()).to_string();
-                    name = name.replace([' ', '-', '/'], "_");
+                    // Systems registered with the empty name are not in the name map.
+                    let name = match map.get(system) {
+                        Some(name) => name.replace([' ', '-', '/'], "_"),
+                        None => format!("unnamed_system_{}", system.0),
+                    };
 
                     writeln!(f, "\t\t\t{},", name)?;
                 }
